@@ -44,6 +44,10 @@ USES = {
     "match-regex": ("rx", "match Ev2(v=$rx)"),
     "action-set-arg": ("s", "start XCustomAction(p=$s) as $axs"),
     "action-nested-arg": ("n", "start XCustomAction(p=$n) as $axn"),
+    # references to received events / started actions kept across a cut and dereferenced afterwards
+    "event-ref": (None, "match Ev3() as $evref\nmatch Ev0()\nsend OutE(v=$evref.v)"),
+    "action-ref": (None, 'start UtteranceBotAction(script="ref") as $actref\nmatch Ev1()\nsend OutA(s=$actref.start_event_arguments.script)'),
+    "global-var": (None, 'global $gv\n$gv = {"k": [1, 2]}\nmatch Ev2()\nsend OutG(v=$gv)'),
 }
 
 
@@ -115,7 +119,7 @@ def _activation_cases():
 
 def build(case):
     prog = {"flows": [dict(f, body=list(f["body"])) for f in case["prog"]["flows"]]}
-    needed = sorted({USES[u[2]][0] for u in case["uses"]})
+    needed = sorted({USES[u[2]][0] for u in case["uses"]} - {None})
     by_flow = {}
     for fi, pos, use in case["uses"]:
         by_flow.setdefault(fi % len(prog["flows"]), []).append((pos, use))
@@ -130,7 +134,8 @@ def build(case):
                 break
         for pos, use in ins:
             p = min(pos, limit)
-            body.insert(p, {"k": "raw", "text": USES[use][1]})
+            for j, line in enumerate(USES[use][1].split("\n")):
+                body.insert(p + j, {"k": "raw", "text": line})
         fl["body"] = [{"k": "raw", "text": RICH_PROLOGUE[v]} for v in needed] + body
     return co2.render(prog)
 
